@@ -1,5 +1,6 @@
 import ScVerif.C09.BusLemmas
 import ScVerif.C09.Writers
+import ScVerif.C09.MixBus
 /-!
 # C09 — property theorems, part 4: several writers' `Bus.Send`s overlapping, cancelled listeners, `collect`
 
@@ -148,6 +149,44 @@ theorem C09_delete_published_in_commit_order {ι μ : Type} [DecidableEq ι] (s0
     cases hj
     omega
 
+
+/-- Lossy and backpressured subscribers mixed on one bus with ANY NUMBER OF WRITERS whose sends overlap
+(`MixBus.lean`: the bus of `C09_bus_exactly_once` composed with the subscriber pipelines of
+`C09_mixed_subscribers`; a writer blocked at a backpressured subscriber whose forwarder still holds an event is a
+`visit` that changes nothing).  After EVERY schedule, for any equivalence and response filter:
+(1) the bus part of the state is a state of the bus model, so `C09_bus_exactly_once`,
+`C09_bus_collect_keeps_live` hold of it; (2) every subscriber has been handed exactly what the bus's log says
+it was handed, and keeps its own guarantee (`MSub.Ok`: a backpressured one has lost and reordered nothing, a
+lossy one satisfies the Value-pipeline invariant on what it was handed); (3) "with backpressure nothing is
+dropped": what a backpressured subscriber's consumer has received, followed by the event in its forwarder's
+hand, is duplicate-free and contains the event of EVERY `Send` that has returned and had started after the
+subscriber was registered, unless its subscription was cancelled — whatever the other writers, the lossy
+subscribers and the cancelled ones did meanwhile. -/
+theorem C09_mixed_several_writers (E : Option Nat → Nat → Bool) (F : Nat → Nat) (ms : List MBMove) :
+    let c := mbRun E F MBCfg.init ms
+    (∃ bms, c.bus = busRun BusCfg.init bms) ∧
+    (∀ k s, c.subs[k]? = some s → s.handed = c.bus.handedTo k ∧ s.Ok E F) ∧
+    (∀ k b, c.subs[k]? = some (.bp b) →
+      b.delivered ++ b.inHand.toList = c.bus.handedTo k ∧
+      (b.delivered ++ b.inHand.toList).Nodup ∧
+      ∀ e L, (e, L) ∈ c.bus.done → k < L → k ∉ c.bus.cancelled → e ∈ b.delivered ++ b.inHand.toList) := by
+  intro c
+  have h : MBInv E F c := MBInv_run (MBInv_init E F) ms
+  obtain ⟨bms, hb⟩ := h.sim
+  have hbus : BusInv c.bus := hb ▸ BusInv_run BusInv_init bms
+  refine ⟨⟨bms, hb⟩, ?_, ?_⟩
+  · intro k s hk
+    exact ⟨h.handed k s hk, h.ok s (List.mem_of_getElem? hk)⟩
+  · intro k b hk
+    have hh : b.accepted = c.bus.handedTo k := h.handed k _ hk
+    have hok : b.delivered ++ b.inHand.toList = b.accepted := h.ok _ (List.mem_of_getElem? hk)
+    refine ⟨hok.trans hh, ?_, ?_⟩
+    · rw [hok, hh]
+      exact nodup_handedTo c.bus k hbus.handed_nodup
+    · intro e L hd hkL hc
+      rw [hok, hh, mem_handedTo]
+      exact hbus.done (e, L) hd k hkL hc
+
 /-! ### non-vacuity -/
 
 section examples
@@ -184,6 +223,22 @@ finding): an update committed BEFORE a delete can be published after the delete'
 example :
     ((wrun (WCfg.init st0) [.update 0 11, .delete 0, .publish 0]).published.map (fun p => (p.1, p.2.kind)))
       = [(1, Kind.remove), (0, Kind.update)] := by decide
+
+
+private def never2 : Option Nat → Nat → Bool := fun _ _ => false
+
+/-- a backpressured, a lossy and a backpressured subscriber; the first write (0) is held by every forwarder;
+two more writers start: both wait at subscriber 0 (a `visit` there changes nothing); as the consumers receive,
+the sends go on one listener at a time: both backpressured consumers end up with 0, 1, 2 -/
+example :
+    (fun c : MBCfg => (c.subs.map MSub.delivered, c.bus.done.map (·.1)))
+      (mbRun never2 id MBCfg.init
+        [.listenB, .listenL, .listenB, .send, .visit 0, .visit 0, .visit 0, .finish 0,
+         .send, .send, .visit 1, .visit 2,                       -- blocked: nothing changes
+         .loc 0 .deliver, .visit 1, .visit 1, .loc 2 .deliver, .visit 1, .finish 1,
+         .loc 0 .deliver, .visit 2, .visit 2, .loc 2 .deliver, .visit 2, .finish 2,
+         .loc 0 .deliver, .loc 2 .deliver, .loc 1 .take, .loc 1 .deliver])
+      = ([[0, 1, 2], [2], [0, 1, 2]], [0, 1, 2]) := by decide
 
 end examples
 
